@@ -3,6 +3,7 @@ package props
 import (
 	"encoding/json"
 	"fmt"
+	"strings"
 	"testing"
 
 	"github.com/aml-org/amf-custom-validator/pkg"
@@ -102,6 +103,15 @@ func genC09(t *rapid.T) c09Case {
 	if rapid.Bool().Draw(t, "extra-trailing") {
 		c.Docs = append(c.Docs, c.Docs[0]+pick(t, []string{"\n{\"@id\":\"http://ex.org/second-document\"}", " ]", "\n# a log line", "}\n", " trailing words", "\n[]", ","}, "trailing"))
 		c.DocKinds = append(c.DocKinds, "trailing-content")
+	}
+	// two documents of the pool that agree in length and in a 32-bit checksum (trailing white space does it):
+	// whatever a compiled profile keeps between calls must be keyed by the document, not by a fingerprint of it
+	if len(c.Docs) >= 2 && c.DocKinds[0] == "graph" && c.DocKinds[1] == "graph" && rapid.IntRange(0, 3).Draw(t, "collidingDocs") == 0 {
+		sum := pick(t, m.Checksums, "checksum")
+		if a, b, ok := m.CollideJSON(c.Docs[0], c.Docs[1], sum); ok {
+			c.Docs[0], c.Docs[1] = a, b
+			c.DocKinds[0], c.DocKinds[1] = "graph colliding with document 1 on "+sum, "graph colliding with document 0 on "+sum
+		}
 	}
 	c.FreshProcess = rapid.IntRange(0, 5).Draw(t, "freshProcess") == 0
 	if rapid.IntRange(0, 2).Draw(t, "builtinPrefix") == 0 {
@@ -266,6 +276,9 @@ func decideC09(c c09Case) ev.Verdict {
 		}
 		prevKind = kind
 		v.Labels = append(v.Labels, "step:"+kind)
+		if strings.Contains(c.DocKinds[op.Doc], "colliding") {
+			v.Labels = append(v.Labels, "step:document-with-a-checksum-twin")
+		}
 	}
 	if sawFailThenPass {
 		v.Labels = append(v.Labels, "history:fail-then-pass")
